@@ -28,7 +28,9 @@ Conf == [
   q_coal2     |-> U(<<"coalesce">>, "small", "mid", 2, 3, 2, 2, <<1>>),
   q_calls     |-> U(<<"call", "invoke">>, "argsmall", "basic", 2, 3, 2, 2, <<1>>),
   q_modes     |-> U(<<"ref", "fill", "auto", "dict", "list", "tuple", "coalesce">>, "small", "basic", 3, 3, 2, 2, <<1, 2>>),
+  q_ref       |-> U(<<"ref", "tuple", "coalesce">>, "refl", "one", 4, 5, 2, 2, <<1>>),
   \* ---- thorough tier ----
+  t_ref       |-> U(<<"ref", "tuple", "coalesce", "list">>, "refl", "basic", 4, 5, 2, 2, <<1, 2>>),
   t_nest      |-> U(Containers, "small", "basic", 3, 4, 2, 3, <<1, 2, 3>>),
   t_nest5     |-> U(<<"dict", "list", "tuple">>, "tiny", "basic", 3, 5, 2, 3, <<1>>),
   t_leaves    |-> U(Containers, "full", "basic", 2, 3, 2, 2, <<1, 2, 3, 4, 5, 6, 7>>),
@@ -87,7 +89,8 @@ ArgLeaves == {P("a", <<"a">>), TT(<<Step("[", S("a"))>>), TT(<<Step("[", S("b"))
 ArgSmallLeaves == {P("a", <<"a">>), TT(<<Step("[", S("a"))>>), TT(<<Step("[", S("x"))>>),
                    Wrap("spec", F("inc")), Wrap("spec", F("raise_KeyError")), Wrap("spec", P("b", <<"b">>))}
 ArgTinyLeaves == {TT(<<Step("[", S("a"))>>), Wrap("spec", F("inc")), Wrap("spec", F("raise_KeyError"))}
-LeavesOf(c) == (CASE c.leaf = "tiny" -> TinyLeaves [] c.leaf = "argtiny" -> ArgTinyLeaves [] c.leaf = "small" -> SmallLeaves [] c.leaf = "full" -> FullLeaves
+RefLeaves == {P("n", <<"n">>), P("a", <<"a">>), F("inc")}
+LeavesOf(c) == (CASE c.leaf = "tiny" -> TinyLeaves [] c.leaf = "refl" -> RefLeaves [] c.leaf = "argtiny" -> ArgTinyLeaves [] c.leaf = "small" -> SmallLeaves [] c.leaf = "full" -> FullLeaves
                   [] c.leaf = "argsmall" -> ArgSmallLeaves [] OTHER -> ArgLeaves)
                \cup (IF \E i \in 1..Len(c.kinds) : c.kinds[i] = "ref" THEN {RefUse} ELSE {})
 
@@ -115,7 +118,8 @@ MidOpts == {Opt(d, sk, ex) :
                d \in {DNone, DArg(K(SKIP)), DArg(TT(<<Step("[", S("a"))>>)), DFac("echo")},
                sk \in {SkNone, SkVal(VBool(TRUE)), SkTup(<<VInt(0), VNone>>), SkPred("is_none"), SkPred("raise_GlomError")},
                ex \in {GE, <<"KeyError">>, <<"ValueError", "TypeError">>, <<>>}}
-CoalOptsOf(c) == CASE c.coal = "full" -> FullOpts [] c.coal = "mid" -> MidOpts [] OTHER -> BasicOpts
+OneOpt == {Opt(DArg(K(VNone)), SkNone, GE)}
+CoalOptsOf(c) == CASE c.coal = "one" -> OneOpt [] c.coal = "full" -> FullOpts [] c.coal = "mid" -> MidOpts [] OTHER -> BasicOpts
 
 \* Call: func position
 CallFuncs == {F("echo"), F("pair"), TT(<<Step("[", S("f"))>>), TT(<<Step("[", S("a"))>>),
